@@ -132,7 +132,7 @@ CLAIMED = {
                   'wrap and the 64-bit roll counter included, polls at most 2^32-1 ms apart) yields the same events, and the final states are related by the shift; primitives (N2kIsTimeBefore, N2kHasElapsed, tN2kScheduler, '
                   'tN2kSyncScheduler, slot ageing, N2kMillis64) are shift-invariant and timers armed before the wrap fire on time.  Metamorphic correspondence: every generated history is run at several origins in the C++ '
                   'and in the model and the relative-time traces compared; the device-list request pacing is covered by C18_pacing_shift and its histories run from 11 origins (family devlist-pacing).',
-             note=TB + 'Defects found and repaired: e3d90bc (heartbeat before Open scheduled on the absolute clock); the device-list pacing dependence (D-20) was repaired (e1ce509) and is proved under C18 (C18_pacing_shift).  Hypothesis: consecutive clock reads less than '
+             note=TB + 'Defects found and repaired: e3d90bc (heartbeat before Open scheduled on the absolute clock), b8b21e9 (SendHeartbeat(bool) before Open() decided "due" against the absolute clock); the device-list pacing dependence (D-20) was repaired (e1ce509) and is proved under C18 (C18_pacing_shift).  Hypothesis: consecutive clock reads less than '
                   '2^32 ms apart (otherwise the roll counter of N2kMillis64 misses a wrap; stated in millis64_gap).',
              design='6 C13', technique='Coq relational (two-run) invariant proof over executable model + metamorphic extracted-model/implementation correspondence'),
 }
